@@ -47,4 +47,29 @@ PROPS = {
         "assumptions": ["a jump matches any bytes, newline included (hex strings are dot-all)",
                         "for variable-length patterns any satisfying length is accepted at an offset"],
     },
+    "C03": {
+        "src": "c03", "engine": "rc", "level": "exploration",
+        "technique": "property-based testing (rapidcheck) against a set-semantics reference regexp matcher; MUST/MAY bounds for fullword",
+        "level_text": ("Generated regexp ASTs (all node kinds of the manual: literals, classes, dot, groups, alternation incl. "
+                       "empty alternative, greedy or lazy * + ? {n} {n,} {,m} {n,m}, anchors, word boundaries, /i /s, nocase, "
+                       "ascii, wide, fullword) are printed, compiled and run over buffers sampled from the expression itself; "
+                       "string matches are compared with the model (offset set, length membership) and the `matches` "
+                       "operator with existence of a match anywhere in the operand."),
+        "level_note": ("Trusts the reference matcher and its stated assumptions (wide = 2-byte units, case-insensitive class "
+                       "membership); buffers < 1024 bytes as the property states; regexps <= 14 nodes, repeat bounds <= 6 "
+                       "(one large .{n,m}); cases hitting documented regexp size/fiber limits are discarded and counted."),
+        "quick": (5000, 45), "thorough": (150000, 600),
+        "floor": 200,
+        "rule": ("case = one generated regular expression (<= 14 AST nodes over the alphabet a b c A B 0 1 _ - space \\n "
+                 "\\x00 \\xff) used either as a string declaration with generated modifiers and 1-2 buffers (< 1024 bytes) "
+                 "sampled from the expression (matching text, near misses, word / non-word delimiters, ascii or wide), or "
+                 "as the right operand of `matches` with 1-4 generated operands. Non-trivial: the model expects >= 1 match "
+                 "AND the expression contains a quantifier or an alternation; distinct by hash of (rule text, buffers)."),
+        "assumptions": [
+            "wide regexps consume 2-byte units whose second byte is zero; \\b looks at 2-byte units",
+            "case-insensitive class membership: a byte is in the class if it or its other-case form is listed; negation applied afterwards",
+            "with fullword, an offset must be reported only if every length the expression can match there is a full word; it may be reported if some length is",
+            "greedy vs lazy never changes the set of offsets; any matchable length is accepted as the reported length",
+        ],
+    },
 }
